@@ -13,6 +13,8 @@ claimed={
             note="Trusted: exact SMT predicates for unicode.IsLetter/IsDigit generated from the toolchain tables; fmt message text with symbolic operands is abstract; ASCII fast path of utf8.DecodeRuneInString; z3 5.1.0. Outside: strings longer than n (quick 4, thorough 6) that are not instances of the 18 templates with k<=2 (thorough 3) symbolic bytes; very long tokens.", ref="DESIGN.md §6 C07"),
  "C17":dict(text="Bounded model checking by symbolic execution of table.addThousandsSep, TextRenderer.numToString/renderCell/minLengthCell/Render and CSVRenderer.renderCell from /repo's SSA. Kernel A: every string [-]d{ni}[.d{nf}] (all digits symbolic). Kernel B: amount as a symbolic digit vector, cell text re-parsed and compared with an independent definition of half-away-from-zero rounding, width, blank-zero and sign. Kernel C: rendered tables (symbolic amounts, catalogue of multi-byte names chosen by forking) are rectangular with aligned separators. Kernel D: CSV cell is the exact amount (symbolic token equality + concrete 17-digit hazards).",
             note="Trusted: decimal stub (incl. digit-vector StringFixed as a definitional extension), fatih/color modelled as plain Fprintf, z3. Outside: percent cells (float64), amounts beyond the stated digit counts, tables beyond the stated shapes, csv.Writer quoting.", ref="DESIGN.md §6 C17"),
+ "C12":dict(text="Bounded model checking by symbolic execution of price.Prices.Insert/addPrice/Normalize/normalize, NormalizedPrices.Price/Valuate and price.Multiply from /repo's SSA over price graphs on <= 4 commodities (direct, inverse, chains <= 3, star, disconnected, redeclarations, triangle, square) with the declared prices, the declaration order and every hash-map iteration order symbolic; the oracle recomputes the price along the unique chain of latest declarations. z3 decides every assertion on every path.",
+            note="Trusted: decimal stub, z3. Known finding C12-F1 (alternative paths priced in map order) is carved out by signature (graph has a cycle). Outside: graphs > 4 commodities; sym*sym products in cyclic graphs; the V==commodity shortcut of journal.Valuate (C03).", ref="DESIGN.md §6 C12"),
 }
 na_reason={
  "C19":"goroutine interleavings of real sync/context/conc code cannot be encoded by the sequential SSA executor (no Go scheduler model); see DESIGN.md §7",
